@@ -107,6 +107,23 @@ func signSpec() *edt.Spec {
 			},
 		},
 		Extra: func(p *edt.Path, out, class string, e *edt.Env, ab func(string) string) string {
+			// the self-check verifies THIS signature of THIS message under the public half of the
+			// key with the caller's own options (variant, context and verification preset)
+			for _, l := range p.Lits {
+				t := l.Term
+				if t == nil || t.Op != "ed25519.VerifyWithOptions" {
+					continue
+				}
+				if len(t.Args) != 4 || t.Args[0].String() != "$priv[32:]" || t.Args[1].String() != "$message" {
+					return "the self-check does not verify the message under the public half of the signing key: " + clip(ab(t.String()), 200)
+				}
+				if t.Args[3].String() != "$opts" {
+					return "the self-check does not verify with the caller's options (variant, context, preset): it uses " + clip(ab(t.Args[3].String()), 200)
+				}
+				if class == "signature" && len(p.Outcome) > 0 && p.Outcome[0].Op == "&new" && len(p.Outcome[0].Args) == 1 && t.Args[2].String() != p.Outcome[0].Args[0].String() {
+					return "the self-check verifies something other than the signature returned"
+				}
+			}
 			if class != "signature" {
 				return ""
 			}
